@@ -257,6 +257,18 @@ def r3(ctx: Ctx) -> None:
                              f'`except {types}: {body}` around {call_name(calls[0])}(): a rules / views file that fails to load is swallowed without any message — the command goes on as if the file '
                              f'contained no rules ("Loaded 0 rules", everything Unknown)', h)
     ctx.need(n >= 4, f'C17.R3: only {n} handlers around loader calls found')
+    # a configured rules file that is not there is a file that cannot be loaded: the loader is called for it all the same (and reports the failure), it is
+    # not skipped behind an existence test
+    gar = proj.func('merchant_utils.get_all_rules')
+    gfl = get_flow(proj, gar)
+    loads = gfl.calls('load_merchants_file')
+    if not loads:
+        ctx.unknown('C17.R3', gar, 'get_all_rules no longer calls load_merchants_file')
+    for c in loads:
+        g = gfl.cfg.guard_literals(gfl.stmt_of(c))
+        behind = sorted(t for t, tr in g if tr and any(k in t for k in ('os.path.exists(', 'os.path.isfile(', '.exists()', '.is_file()')))
+        ctx.check(not behind, 'C17.R3', gar, 'missing-file-reported', 'a configured rules file is loaded (and its failure reported) whether or not it exists',
+                  f'the rules file is only loaded under {behind}: a configured file that is missing is silently treated as "no rules" instead of being reported', c)
     # load_config records view-load errors in the warnings list: what it stores in config['_warnings'] must be that very list
     # (or be stored after the last append), otherwise the recorded error never reaches _print_deprecation_warnings
     lc = proj.func('config_loader.load_config')
@@ -483,6 +495,24 @@ def r5(ctx: Ctx, mp: FuncInfo, ps: FuncInfo) -> None:
     # section alone.  A per-section record made as a one-level copy of a shared template (`dict(defaults, name=…)`, `defaults.copy()`, `{**defaults}`)
     # still holds the template's lists and dicts: what one section appends shows up in every other rule.
     _fresh_containers(ctx, mp)
+    # an error in a section is reported at that section: the line handed to _add_rule is the remembered header line of the section being closed, never
+    # the line the parser happens to be on (which is the *next* section's header)
+    loop_ = _line_loop(ctx, mp)
+    counter = loop_.target.elts[0].id if isinstance(loop_.target, ast.Tuple) and isinstance(loop_.target.elts[0], ast.Name) else None
+    pfl_ = get_flow(proj, mp)
+    closes = [c for c in pfl_.calls('_add_rule') if len(c.args) >= 2]
+    if counter and closes:
+        for k_, c in enumerate(closes):
+            a = c.args[1]
+            direct = any(isinstance(n, ast.Name) and n.id == counter for n in ast.walk(a))
+            remembered = False
+            if isinstance(a, ast.Name) and not direct:
+                defs_ = [pfl_.cfg.stmt.get(d_) for d_ in pfl_.cfg.defs_reaching(pfl_.stmt_of(c), a.id) if d_ != 'param']
+                remembered = bool(defs_) and all(isinstance(s_, ast.Assign) and (isinstance(s_.value, ast.Constant) or (isinstance(s_.value, ast.Name) and s_.value.id == counter))
+                                                 for s_ in defs_)
+            ctx.check(remembered and not direct, 'C17.R5', mp, f'error-line:close#{k_ + 1}', 'a section is closed with the line of its own header',
+                      f'{src(c)[:60]!r}: the line number given for the section being closed is {"the current line (the following header)" if direct else "not the remembered header line"}: '
+                      f'an error in a section is reported at the wrong line', c)
     # parse(): malformed arms raise.  Arms are recognised by the branch outcomes that lead to the raise, not by the message text.
     loop = _line_loop(ctx, mp)
     pfl = get_flow(proj, mp)
